@@ -101,6 +101,24 @@ def check_string(s):
     return out
 
 
+_PROBES = None
+
+
+def _no_memory(out):
+    """Parsing has no memory: after any number of rejected inputs a fixed set of filters still round-trips (C13) in this process."""
+    global _PROBES
+    if _PROBES is None:
+        x = FilterEquality("cn", b"v")
+        _PROBES = [FilterAnd([x, FilterOr([x, FilterNot(x)])]), FilterNot(FilterAnd([x])), FilterOr([FilterAnd([x, x]), x]), FilterSubstrings("cn", b"a", [b"b"], None)]
+    for f in _PROBES:
+        try:
+            back = LDAPFilter.from_string(str(f))
+            if back != f:
+                out.append(("C13", "from_string(str(f)) == f", str(f), f"after rejected inputs in the same process: parsed back as {back!r}"[:300], None))
+        except Exception as e:
+            out.append(("C13", "from_string(str(f)) == f", str(f), f"after rejected inputs in the same process: {type(e).__name__}: {e}"[:300], None))
+
+
 def _chunk_strings(args):
     alphabet, prefix, n = args
     out = []
@@ -111,7 +129,8 @@ def _chunk_strings(args):
         out.extend(check_string(s))
         if len(out) > 20:
             break
-    return cnt, out[:20]
+    _no_memory(out)
+    return cnt, out[:24]
 
 
 # ---------------------------------------------------------------------------------------------- grammar sentences (C14)
@@ -367,7 +386,8 @@ def _check_list(xs):
         out.extend(check_string(s))
         if len(out) > 20:
             break
-    return len(xs), out[:20]
+    _no_memory(out)
+    return len(xs), out[:24]
 
 
 if __name__ == "__main__":
